@@ -1191,6 +1191,7 @@ def fail_events(model: TopoModel):
     if names:
         n0 = names[0]
         ev.append(('fail', 'type-outside-vocabulary', n0))
+        ev.append(('fail', 'type-of-another-kind', n0))
         if free:
             ev.append(('fail', 'link-non-interface', n0, model._pref(free[0])))
         ev.append(('fail', 'node-duplicate-name', n0))
@@ -1437,6 +1438,8 @@ def _do_fail(model: TopoModel, ev):
                        interfaces=[('same', Labels(vlan='1'), Capacities(bw=1)), ('same', Labels(vlan='2'), Capacities(bw=1))])
     elif kind == 'type-outside-vocabulary':
         model.node(ev[2]).set_property('type', 'Garbage')
+    elif kind == 'type-of-another-kind':
+        model.node(ev[2]).set_property('type', fu.ComponentType.GPU)
     elif kind == 'link-non-interface':
         t.add_link(name='lnode', node_id=nid('lnode'), ltype=LinkType.Patch, interfaces=[model.node(ev[2]), model.port(*ev[3])])
     elif kind == 'sub-duplicate-via-second-handle':
@@ -1522,7 +1525,7 @@ def _events_with_probes(self):
 GUARD_PROBES = {'node-duplicate-name', 'node-duplicate-id', 'facility-duplicate-name', 'switch-duplicate-name',
                 'service-duplicate-id', 'service-duplicate-name', 'component-duplicate-name', 'component-duplicate-id',
                 'storage-duplicate-name', 'sub-duplicate-name', 'sub-duplicate-vlan', 'peer-twice', 'link-duplicate-name',
-                'facility-duplicate-interface-names', 'type-outside-vocabulary', 'link-non-interface',
+                'facility-duplicate-interface-names', 'type-outside-vocabulary', 'type-of-another-kind', 'link-non-interface',
                 'sub-duplicate-via-second-handle', 'sub-service-interface-twice-one-handle'}
 
 
